@@ -6,28 +6,50 @@
 (*   [opt, shape: "node" | "step" | "var" | "chain" | "chain3" (three hops), x, y, xk, yk, sel, pv, dir]                                  *)
 (*   xk, yk: kind of the endpoint (0: none); sel: 0 no condition, 1 condition on x, 2 on y, 3 on both;           *)
 (*   pv: bind a path variable; dir: "out" | "in" | "both"; w: a WITH follows the clause, handing on every variable   *)
-(*   bound so far ("all") or only x ("x")                                                                         *)
+(*   bound so far ("all") or only x ("x"); xc: a condition of this clause that reads a variable an earlier clause     *)
+(*   bound - "eq": x.v = prev.v, "any": any(i in x.list where i = prev.v), "noneof": none(i in prev.list where i = x.v) *)
+(*   (the harness leaves it out when no earlier variable other than x and y is in scope)                              *)
 EXTENDS Integers, Sequences, FiniteSets, TLC, Json
 CONSTANTS MaxClauses, Shapes, Family
-VARIABLES q, emitted
+VARIABLES q, emitted, cur
 Vars == {"a", "b", "c"}
-Clause == [opt : BOOLEAN, shape : Shapes, x : Vars, y : Vars, xk : 0..2, yk : 0..2, sel : 0..3, pv : BOOLEAN, dir : {"out", "in", "both"}, w : {"none", "all", "x"}]
+Clause == [opt : BOOLEAN, shape : Shapes, x : Vars, y : Vars, xk : 0..2, yk : 0..2, sel : 0..3, pv : BOOLEAN, dir : {"out", "in", "both"}, w : {"none", "all", "x"}, xc : {"none", "eq", "any", "noneof"}]
 Sane(c) == /\ c.x # c.y
            /\ (c.shape = "node") => (c.y = (CHOOSE v \in Vars : v # c.x) /\ c.yk = 0 /\ c.sel \in {0, 1} /\ ~c.pv /\ c.dir = "out")
            /\ (c.shape \notin {"chain", "chain3"}) => c.dir # "both" \/ c.shape = "step"
 \* the anchor family, printed in full when Family = "anchors": two node anchors of every selectivity followed by a step
 \* between them - the shape the reordering rule works on
-NodeClause(v, k, sel) == [opt |-> FALSE, shape |-> "node", x |-> v, y |-> (CHOOSE w \in Vars : w # v), xk |-> k, yk |-> 0, sel |-> sel, pv |-> FALSE, dir |-> "out", w |-> "none"]
-AnchorSeqsAll == {<<NodeClause(x, xk, s1), NodeClause(y, yk, s2), [opt |-> o, shape |-> sh, x |-> x, y |-> y, xk |-> 0, yk |-> 0, sel |-> 0, pv |-> pv, dir |-> d, w |-> "none"]>> :
+NodeClauseX(v, k, sel, xc) == [opt |-> FALSE, shape |-> "node", x |-> v, y |-> (CHOOSE w \in Vars : w # v), xk |-> k, yk |-> 0, sel |-> sel, pv |-> FALSE, dir |-> "out", w |-> "none", xc |-> xc]
+NodeClause(v, k, sel) == NodeClauseX(v, k, sel, "none")
+AnchorSeqsAll == {<<NodeClause(x, xk, s1), NodeClause(y, yk, s2), [opt |-> o, shape |-> sh, x |-> x, y |-> y, xk |-> 0, yk |-> 0, sel |-> 0, pv |-> pv, dir |-> d, w |-> "none", xc |-> "none"]>> :
                  x \in {"a", "b"}, y \in {"b", "c"}, xk \in 0..2, yk \in 0..2, s1 \in 0..1, s2 \in 0..1, sh \in {"step", "var"}, d \in {"out", "in"}, pv \in BOOLEAN, o \in BOOLEAN}
+\* two anchors, the second one reading the first through a condition of every form: what the reordering rule must not turn around
+CrossSeqs == {<<NodeClause(x, xk, s1), NodeClauseX(y, yk, s2, xc)>> : x \in {"a", "b"}, y \in {"b", "c"}, xk \in 0..2, yk \in 0..2, s1 \in 0..1, s2 \in 0..1, xc \in {"eq", "any", "noneof"}}
+           \cup {<<NodeClause(x, xk, 0), NodeClauseX(y, yk, s2, xc), [opt |-> FALSE, shape |-> "step", x |-> y, y |-> "c", xk |-> 0, yk |-> 0, sel |-> 0, pv |-> FALSE, dir |-> d, w |-> "none", xc |-> "none"]>> :
+                   x \in {"a"}, y \in {"b"}, xk \in 0..2, yk \in 0..2, s2 \in 0..1, xc \in {"eq", "any", "noneof"}, d \in {"out", "in"}}
 AnchorSeqs == {s \in AnchorSeqsAll : s[1].x # s[2].x}
 ASSUME Family = "anchors" => \A s \in AnchorSeqs : PrintT(ToJson(s))
-Init == q = <<>> /\ emitted = FALSE
-Add == /\ Family = "random" /\ ~emitted /\ Len(q) < MaxClauses
-       /\ \E c \in Clause : Sane(c) /\ (q = <<>> => ~c.opt) /\ (Len(q) = MaxClauses - 1 => c.w = "none") /\ q' = Append(q, c)
-       /\ UNCHANGED emitted
-Emit == /\ ~emitted /\ q # <<>> /\ q[Len(q)].w = "none"
-        /\ PrintT(ToJson(q)) /\ emitted' = TRUE /\ UNCHANGED q
-Next == Add \/ Emit
-Spec == Init /\ [][Next]_<<q, emitted>>
+ASSUME Family = "anchors" => \A s \in {t \in CrossSeqs : t[1].x # t[2].x} : PrintT(ToJson(s))
+\* the random family builds a clause in three small choices (a walk step enumerates every successor: one choice over the whole
+\* clause record set costs a hundred thousand successors per step)
+Init == q = <<>> /\ emitted = FALSE /\ cur = <<>>
+Pick1 == /\ Family = "random" /\ ~emitted /\ Len(q) < MaxClauses /\ cur = <<>>
+         /\ \E sh \in Shapes, x \in Vars, y \in Vars, d \in {"out", "in", "both"} : cur' = <<[shape |-> sh, x |-> x, y |-> y, dir |-> d]>>
+         /\ UNCHANGED <<q, emitted>>
+Pick2 == /\ Len(cur) = 1
+         /\ \E xk \in 0..2, yk \in 0..2, sel \in 0..3 : cur' = Append(cur, [xk |-> xk, yk |-> yk, sel |-> sel])
+         /\ UNCHANGED <<q, emitted>>
+Pick3 == /\ Len(cur) = 2
+         /\ \E o \in BOOLEAN, pv \in BOOLEAN, w \in {"none", "all", "x"}, xc \in {"none", "eq", "any", "noneof"} :
+              LET c == [opt |-> o, shape |-> cur[1].shape, x |-> cur[1].x, y |-> cur[1].y, xk |-> cur[2].xk, yk |-> cur[2].yk, sel |-> cur[2].sel, pv |-> pv,
+                        dir |-> cur[1].dir, w |-> w, xc |-> xc] IN
+              /\ Sane(c) /\ (q = <<>> => (~c.opt /\ c.xc = "none")) /\ (Len(q) = MaxClauses - 1 => c.w = "none")
+              /\ q' = Append(q, c) /\ cur' = <<>>
+         /\ UNCHANGED emitted
+\* a partial clause that no third choice completes is dropped
+Drop == /\ Len(cur) = 2 /\ ~ENABLED Pick3 /\ cur' = <<>> /\ UNCHANGED <<q, emitted>>
+Emit == /\ ~emitted /\ cur = <<>> /\ q # <<>> /\ q[Len(q)].w = "none"
+        /\ PrintT(ToJson(q)) /\ emitted' = TRUE /\ UNCHANGED <<q, cur>>
+Next == Pick1 \/ Pick2 \/ Pick3 \/ Drop \/ Emit
+Spec == Init /\ [][Next]_<<q, emitted, cur>>
 =============================================================================
